@@ -205,6 +205,19 @@ impl VSched {
 
     /// Worker with `cpus` cpus (one socket) and `sum` resources (name, units); through `on_new_worker`.
     pub fn add_worker(&mut self, id: u32, cpus: u32, others: &[(&str, u32)], min_utilization: f32) {
+        self.add_worker_tl(id, cpus, others, min_utilization, None)
+    }
+
+    /// Same with a time limit (seconds): the worker's termination time is `now + limit`, and the
+    /// scheduling decision is taken at the same `now`, so the remaining lifetime is exactly the limit.
+    pub fn add_worker_tl(
+        &mut self,
+        id: u32,
+        cpus: u32,
+        others: &[(&str, u32)],
+        min_utilization: f32,
+        time_limit_secs: Option<u64>,
+    ) {
         let mut descriptor = ResourceDescriptor::simple_cpus(cpus);
         for (name, units) in others {
             descriptor.resources.push(ResourceDescriptorItem::sum(name, *units));
@@ -221,7 +234,7 @@ impl VSched {
                 gpu_families: Default::default(),
             },
             idle_timeout: None,
-            time_limit: None,
+            time_limit: time_limit_secs.map(Duration::from_secs),
             retract_check_interval: Duration::from_secs(30),
             on_server_lost: ServerLostPolicy::Stop,
             min_utilization,
@@ -253,6 +266,61 @@ impl VSched {
         let rqv = ClientRqv::new_simple(rq);
         let (id, _) = get_or_create_resource_rq_id(&mut self.core, &mut self.comm, &rqv);
         id.as_num()
+    }
+
+    /// Request class with several variants, each (entries [(resource name, fractions)], min_time seconds).
+    pub fn add_request_variants(&mut self, variants: &[(Vec<(&str, u64)>, u64)]) -> u32 {
+        let vs = variants
+            .iter()
+            .map(|(entries, min_time)| {
+                let rq = ClientRq {
+                    n_nodes: 0,
+                    resources: entries
+                        .iter()
+                        .map(|(name, fr)| ResourceRequestEntry {
+                            resource: name.to_string(),
+                            policy: AllocationRequest::Compact(ResourceAmount::new(
+                                (*fr / 10_000) as u32,
+                                (*fr % 10_000) as u32,
+                            )),
+                        })
+                        .collect(),
+                    min_time: Duration::from_secs(*min_time),
+                    weight: Default::default(),
+                };
+                rq.validate().expect("valid request");
+                rq
+            })
+            .collect();
+        let rqv = ClientRqv::new(vs);
+        let (id, _) = get_or_create_resource_rq_id(&mut self.core, &mut self.comm, &rqv);
+        id.as_num()
+    }
+
+    /// `Worker::block_request` (what a `Reject` update of the worker does on the server side).
+    pub fn block(&mut self, worker: u32, rq: u32, variant: u32) {
+        self.core
+            .split_mut()
+            .worker_map
+            .get_worker_mut(WorkerId::new(worker))
+            .block_request(ResourceRqId::new(rq), ResourceVariantId::new(variant as u8));
+    }
+
+    /// variants of a class: (entries (resource id, fractions), min_time secs)
+    pub fn request_variants(&self, rq: u32) -> Vec<(Vec<(u32, u64)>, u64)> {
+        let rqv = self.core.get_resource_rq(ResourceRqId::new(rq));
+        rqv.requests()
+            .iter()
+            .map(|r| {
+                (
+                    r.entries()
+                        .iter()
+                        .map(|e| (e.resource_id.as_num(), e.request.min_amount().total_fractions()))
+                        .collect(),
+                    r.min_time().as_secs(),
+                )
+            })
+            .collect()
     }
 
     /// New ready task through `on_new_tasks`.
